@@ -420,8 +420,8 @@ type P13v2 struct {
 
 func (P13v2) TableName() string { return "p13" }
 
-// ---- P14 (known finding, corpus only): numeric defaults in a spelling other than the canonical
-// one; gorm writes the DDL from the parsed value but compares the tag TEXT on re-migration ----
+// ---- P14: numeric defaults in a spelling other than the canonical one (gorm writes the DDL from
+// the parsed value; re-altered on every migration until repo commit fa267c0) ----
 type P14 struct {
 	ID uint    `gorm:"primaryKey"`
 	NP int64   `gorm:"default:+5"`
